@@ -188,7 +188,7 @@ def innermost_parso_frame(tb):
 
 def crash_signature(exc):
     fn, line = innermost_parso_frame(exc.__traceback__)
-    return 'crash:%s@%s' % (type(exc).__name__, fn), '%s: %s | %s' % (type(exc).__name__, str(exc)[:200], line)
+    return 'crash:%s@%s:%s' % (type(exc).__name__, fn, ' '.join(line.split())), '%s: %s' % (type(exc).__name__, str(exc)[:200])
 
 
 def short(s, n=160):
